@@ -318,6 +318,7 @@ package server
 //@   requires C15.frames: self != nil && command != nil && implies(command.Data != nil, !isnil(command.Data.Data) && len(command.Data.Data) >= 6 && len(command.Data.Data) < 0x40000000 && voffC(command.Data) <= len(command.Data.Data)) && implies(self.currentData != nil && !isnil(self.currentData.data), len(self.currentData.data) >= 6 && len(self.currentData.data) < 0x40000000 && voffM(self.currentData) <= len(self.currentData.data))
 //@   ensures C15.op.unset: implies(calls(NewLockManagerDataUnsetData) == 1 && calls(ProcessLockData) == 0, isnil(curValue(self)) && self.currentData != nil && self.currentData.commandType == 1)
 //@   ensures C15.op.consumed: command.Data == nil || calls(ProcessLockData) >= 1
+//@   loop#1 invariant 0 <= index && index <= len(buf) && len(buf) < 0x40000000
 //@   at call NewLockManagerData assert C15.op.set: implies(arg1 == 0, arg0 == lockCommandData.Data)
 //@   at call NewLockManagerData assert C15.op.append-first: implies(arg1 == 3 && !hasValue(currentLockData), arg0 == lockCommandData.Data && arg0[4] == 0)
 //@   at call NewLockManagerData assert C15.op.append: implies(arg1 == 3 && hasValue(currentLockData), len(arg0) == len(currentLockData.data) + len(lockCommandData.Data) - voffC(lockCommandData) && arg0[4] == 0 && arg0[5] == currentLockData.data[5] && forall(k, 6, len(currentLockData.data), arg0[k] == currentLockData.data[k]) && forall(k, 0, len(lockCommandData.Data) - voffC(lockCommandData), arg0[len(currentLockData.data) + k] == lockCommandData.Data[voffC(lockCommandData) + k]))
@@ -1192,3 +1193,9 @@ package server
 //@   loop#1 invariant -1 <= rangeindex && rangeindex < len(self.ackDbs) && self.ackDbs == old(self.ackDbs) && self.serverChannels == old(self.serverChannels) && self.slock == old(self.slock) && self.slock.arbiterManager == old(self.slock.arbiterManager) && Config == old(Config) && Config.AofAckMode == old(Config.AofAckMode) && implies(self.slock.arbiterManager == nil && Config.AofAckMode == 1, ackCount == clusterMajority(len(self.serverChannels)) && forall(j, 0, rangeindex + 1, implies(self.ackDbs[j] != nil, self.ackDbs[j].ackCount == u8(clusterMajority(len(self.serverChannels))))))
 //@   ensures C11.quorum.majority: implies(old(self.slock.arbiterManager) == nil && old(Config.AofAckMode) == 1, forall(j, 0, len(self.ackDbs), implies(self.ackDbs[j] != nil, self.ackDbs[j].ackCount == u8(clusterMajority(len(self.serverChannels))))))
 //@   modifies ReplicationAckDB.ackCount
+
+// C13: the value frame read from the connection is handed on only if it has a header
+//@ func (*BinaryServerProtocol).ProcessParseLockData
+//@   requires self != nil
+//@   ensures C13.valueframe: implies(isnil(result1), result0 != nil && len(result0.Data) >= 6)
+//@   modifies all
